@@ -74,6 +74,17 @@ def deep_copy(v):
 
 
 def call_numpy(it, name, mod, fn, args, kwargs, node, fr):
+    from . import imgdom
+    if mod == "numpy.fft" and args:
+        if fn in ("fftshift", "ifftshift"):
+            return imgdom.do_shift(it, fn, args[0], args, kwargs, node)
+        if fn in ("fft2", "ifft2", "fftn", "ifftn"):
+            return imgdom.do_fft(it, fn, args[0], args, kwargs, node)
+    if fn == "real" and args and isinstance(args[0], imgdom.Filtered):
+        f = args[0]
+        return imgdom.Filtered(f.src, f.gain, f.axes, f.transformed, real=True)
+    if fn in ("array", "asarray", "copy") and args and isinstance(args[0], (imgdom.Filtered, imgdom.Spectrum)):
+        return args[0]
     if fn in ELEMENTWISE and args:
         op = ELEMENTWISE[fn]
         return map1(lambda t: mk(op, t), args[0])
@@ -129,7 +140,13 @@ def call_numpy(it, name, mod, fn, args, kwargs, node, fr):
                 ca = aa.cols if aa is not None else [to_term(a)] * n
                 cb = ab.cols if ab is not None else [to_term(b)] * n
                 return Arr([mk("ite", ct, x, y) for x, y in zip(ca, cb)], (aa or ab).ndim, _space(c, a, b))
-            return Val(mk("ite", ct, to_term(a), to_term(b)), space=_space(c, a, b))
+            r_ = Val(mk("ite", ct, to_term(a), to_term(b)), space=_space(c, a, b))
+            ax_ = None
+            for x_ in (c, a, b):
+                ax_ = imgdom.bcast_axes(ax_, getattr(x_, "axes", None))
+            if ax_ is not None:
+                r_.axes = ax_
+            return r_
         if len(args) == 1:
             m = args[0]
             sp = getattr(m, "space", None)
@@ -166,6 +183,8 @@ def call_numpy(it, name, mod, fn, args, kwargs, node, fr):
         r = Val(mk("add", st, mk("mul", idx, se)))
         r.arange = (start, stop, step)
         r.length = length
+        from . import imgdom as _img
+        r.axes = [_img.Axis(idx, length, name="arange")]
         so = getattr(stop, "shape_of", None)
         if so is not None and len(args) == 1:
             r.space = r.pos_of = getattr(so, "space", None)
@@ -786,6 +805,11 @@ def call_method(it, recv, name, args, kwargs, node, fr):
         return u
     if isinstance(recv, Unk):
         it.record("call", "method:" + name, [recv] + args, dict(kwargs), node)
+        if name == "reshape" and args:
+            from . import imgdom as _img
+            rs = _img.reshape_axes(it, recv, args[0] if len(args) == 1 else Seq(args, "tuple"), node)
+            if rs is not None:
+                return rs
         if name in ("copy", "astype", "to_numpy", "squeeze", "flatten", "ravel", "tolist", "reset_index") and name != "reset_index":
             return recv
         return Unk(call("." + name, recv.term, *[to_term(a) for a in args],
@@ -793,6 +817,10 @@ def call_method(it, recv, name, args, kwargs, node, fr):
                    space=recv.space if name in ("reset_index", "sort_values", "fillna", "round", "apply", "map") else None)
     if isinstance(recv, Indexer):
         return Unk(call("." + name, to_term(recv)))
+    from . import imgdom as _img
+    if isinstance(recv, _img.Filtered) and name in ("astype", "copy", "view"):
+        it.record("call", "filtered." + name, [recv] + args, dict(kwargs), node)
+        return recv
     raise Unsupported(f"method .{name} on {type(recv).__name__}", node)
 
 
@@ -1035,11 +1063,16 @@ def val_method(it, v, name, args, kwargs, node, fr):
                 return Unk(call("str." + name, to_term(v), *[to_term(a) for a in args]))
     keep = ("copy", "astype", "to_numpy", "flatten", "ravel", "squeeze", "reset_index", "tolist", "to_list", "view",
             "reshape", "item", "conj")
+    if name == "reshape" and args:
+        from . import imgdom as _img
+        rs = _img.reshape_axes(it, v, args[0] if len(args) == 1 else Seq(args, "tuple"), node)
+        if rs is not None:
+            return rs
     if name in keep:
         if name == "reshape":
             it.record("reshape", "reshape", [v] + args, kwargs, node)
         r = Val(v.term, space=v.space, pos_of=v.pos_of, series=v.series and name in ("copy", "astype", "reset_index"))
-        for a in ("of_frame", "colname", "sorted_by", "descending", "alloc", "mask"):
+        for a in ("of_frame", "colname", "sorted_by", "descending", "alloc", "mask", "axes", "alloc_shape"):
             if hasattr(v, a):
                 setattr(r, a, getattr(v, a))
         if name == "astype":
